@@ -283,6 +283,9 @@ func runIn(bin, dir, cache string, cfg RunCfg, modflag string, flags ...string) 
 	done := make(chan error, 1)
 	go func() { done <- cmd.Wait() }()
 	limit := runTimeout(bin)
+	if cfg.limit > 0 {
+		limit = cfg.limit
+	}
 	var err error
 	timedOut := false
 	select {
